@@ -1,10 +1,13 @@
 #![allow(dead_code)]
+mod c03;
 mod c07;
 mod c15;
 mod c20;
 mod enc;
+mod gentext;
 mod genval;
 mod out;
+mod pobs;
 mod popts;
 mod rng;
 
@@ -20,8 +23,16 @@ fn main() {
     let tier = args[2].as_str();
     let seed: u64 = args[3].parse().unwrap_or(0);
     let dir = PathBuf::from(&args[4]);
+    std::fs::create_dir_all(&dir).ok();
+    if id == "C03" && tier == "deepchild" {
+        // harness C03 deepchild <kind> unused <n> <api>
+        c03::deep_child(args[3].parse().unwrap(), args[5].parse().unwrap(), &args[6]);
+        return;
+    }
     let mut out = out::Out::new();
+    pobs::write_alpha_table(&dir.join("alpha.txt"));
     match id {
+        "C03" => c03::run(tier, seed, &mut out),
         "C07" => c07::run(tier, seed, &mut out),
         "C20" => c20::run(tier, seed, &mut out),
         "C15" => c15::run(tier, seed, &mut out),
